@@ -1,4 +1,200 @@
 import SdcModel.Consumer
+import SdcModel.Proofs.Consumer
+/-!
+# C06 — the consumer MDIB never regresses under lost, duplicated or reordered reports
+
+Property theorems only.  Model: `SdcModel/Consumer.lean` (transcription of `mdib/consumermdib.py`, repaired tree);
+helper lemmas: `SdcModel/Proofs/Consumer.lean`.  Every theorem quantifies over *arbitrary* reports / event lists:
+nothing is assumed about where the reports come from, so every subset, duplication, reordering or replay of a
+provider's notifications is covered.
+-/
 namespace Sdc.C06
-open Sdc.Consumer
+open Sdc.Mdib Sdc.Consumer
+
+/-! ### concrete data for the non-vacuity examples -/
+
+def vg (v : Nat) : VersionGroup := ⟨v, 1, some 1⟩
+def snap0 : Snapshot :=
+  ⟨vg 3, [⟨1, none, .component, 0, 10, none⟩, ⟨2, some 1, .metric, 0, 11, none⟩, ⟨3, some 1, .context, 0, 12, none⟩],
+   [⟨1, 0, 0, .component, 20⟩, ⟨2, 0, 4, .metric, 21⟩], [⟨7, 3, 0, 1, 30, .assoc, some 2, none, none, none⟩]⟩
+def metric5 : Report := { kind := .metric, vg := vg 5, states := [⟨2, 0, 6, .metric, 22⟩] }
+def metric4 : Report := { kind := .metric, vg := vg 4, states := [⟨2, 0, 5, .metric, 23⟩] }
+def descr6 : Report :=
+  { kind := .description, vg := vg 6,
+    parts := [⟨.create, ⟨4, some 1, .metric, 0, 13, none⟩, [⟨4, 0, 0, .metric, 24⟩], []⟩,
+              ⟨.update, ⟨2, some 1, .metric, 1, 14, none⟩, [⟨2, 1, 7, .metric, 25⟩], []⟩] }
+def otherSeq : Report := { kind := .metric, vg := ⟨1, 2, some 1⟩, states := [⟨2, 0, 0, .metric, 26⟩] }
+/-- a loaded consumer: `reload_all` answered with `snap0`, nothing arrived meanwhile -/
+def loaded : St := run St.init [.reloadBegin, .reloadEnd snap0 []]
+
+/-! ### MdibVersion -/
+
+/-- whatever reports arrive, in whatever order and multiplicity, the MdibVersion never decreases -/
+theorem mdib_version_monotone (s : St) (rs : List Report) :
+    s.core.vg.ver ≤ (run s (rs.map .report)).core.vg.ver :=
+  run_reports_ver_le rs s
+
+example : (run loaded ([metric5, metric4, metric5].map .report)).core.vg.ver = 5 := by decide
+
+/-- after a reload the MdibVersion is at least the version of the GetMdib answer -/
+theorem mdib_version_after_reload (s : St) (snap : Snapshot) (ctx2 : List CState) (hm : s.mode = .initializing)
+    (hw : snap.wf ctx2 = true) : snap.vg.ver ≤ (step s (.reloadEnd snap ctx2)).1.core.vg.ver := by
+  rw [step_reloadEnd snap ctx2 hm hw, replay_eq_applyAll]
+  exact applyAll_ver_le _ (loadSnapshot snap ctx2)
+
+/-! ### StateVersion -/
+
+/-- along every list of reports that announce no deletion, every state and context state the consumer holds stays
+    in the MDIB and its StateVersion never decreases (any order, any multiplicity, any gaps) -/
+theorem state_versions_monotone (s : St) (rs : List Report) (h : ∀ r ∈ rs, nonRemoving r = true) :
+    Keeps (·.dh) (·.sv) s.core.tabs.states (run s (rs.map .report)).core.tabs.states ∧
+    Keeps (·.h) (·.sv) s.core.tabs.cstates (run s (rs.map .report)).core.tabs.cstates :=
+  run_reports_keeps h
+
+example : ∀ r ∈ [metric5, descr6, metric4, metric5], nonRemoving r = true := by decide
+example : (lookupBy (·.dh) (run loaded ([metric5, descr6, metric4, metric5].map .report)).core.tabs.states 2).map (·.sv)
+    = some 7 := by decide
+
+/-- every single write to a table obeys the StateVersion gate, also inside description modification reports: an
+    existing entry is replaced only by a strictly newer one -/
+theorem state_write_gated {α : Type} (key sv : α → Nat) (am : Bool) (l : List α) (x old : α)
+    (h : lookupBy key l (key x) = some old) :
+    (sv old < sv x ∧ lookupBy key (gatedPut key sv am l x).1 (key x) = some x) ∨
+    (sv x ≤ sv old ∧ gatedPut key sv am l x = (l, false)) := by
+  by_cases hlt : sv old < sv x
+  · left
+    refine ⟨hlt, ?_⟩
+    unfold gatedPut
+    simp only [h, (hasNewUsableVersion_iff _ _).2 hlt, if_true]
+    rw [lookupBy_replaceBy]
+    simp [h]
+  · right
+    exact ⟨by omega, gatedPut_of_covered key sv ⟨old, h, by omega⟩⟩
+
+/-! ### stale and duplicated reports -/
+
+/-- a report older than the MdibVersion of the consumer changes nothing (and names nothing) -/
+theorem stale_noop (s : St) (r : Report) (hm : s.mode = .initialized) (hid : idsDiffer s.core r = false)
+    (h : r.vg.ver < s.core.vg.ver) : step s (.report r) = (s, [{ kind := r.kind }]) := by
+  rw [step_report_ok r hm hid, applyReport_stale h]
+
+example : step (run loaded [.report metric5]) (.report metric4) = (run loaded [.report metric5], [{ kind := .metric }]) := by
+  decide
+
+/-- a state / context report whose states the consumer already holds in the same or a newer version leaves the
+    tables as they are -/
+theorem covered_noop (c : Core) (r : Report) (hk : r.kind ≠ .description) (h : StatesCovered c r) :
+    (applyReport c r).1.tabs = c.tabs ∧ (applyReport c r).2 = { kind := r.kind } :=
+  applyReport_of_covered hk h
+
+/-- an exact duplicate of a state / context report that was applied changes nothing, no matter how many other
+    (non-deleting) reports were processed in between -/
+theorem dup_noop (s : St) (r : Report) (rs : List Report) (hk : r.kind ≠ .description)
+    (hm : s.mode = .initialized) (hid : idsDiffer s.core r = false) (hv : s.core.vg.ver ≤ r.vg.ver)
+    (hrs : ∀ q ∈ rs, nonRemoving q = true) :
+    (step (run (step s (.report r)).1 (rs.map .report)) (.report r)).1.core.tabs =
+      (run (step s (.report r)).1 (rs.map .report)).core.tabs := by
+  have h1 : StatesCovered (step s (.report r)).1.core r := by
+    rw [step_report_ok r hm hid]; exact applyReport_covers hk hv
+  have hk2 := run_reports_keeps (s := (step s (.report r)).1) hrs
+  have h2 : StatesCovered (run (step s (.report r)).1 (rs.map .report)).core r := h1.keeps hk2.1 hk2.2
+  generalize run (step s (.report r)).1 (rs.map .report) = s2 at h2 ⊢
+  rcases step_report_cases s2 r with ⟨_, h⟩ | ⟨_, h⟩ | ⟨_, _, h⟩ | ⟨_, _, h⟩ <;> rw [h]
+  exact (applyReport_of_covered hk h2).1
+
+example : (step (run loaded ([metric5, descr6].map .report)) (.report metric5)).1.core.tabs
+    = (run loaded ([metric5, descr6].map .report)).core.tabs := by decide
+
+/-- a description modification report whose parts are already reflected by the tables (`Settled`: created /
+    updated descriptors present with that content, their states present in the same or a newer version, deleted
+    descriptors absent) changes nothing -/
+theorem dup_description_noop (c : Core) (r : Report) (hk : r.kind = .description) (w : c.tabs.Wf)
+    (hv : r.vg = c.vg) (h : Settled c.tabs r) : (applyReport c r).1 = c := by
+  unfold applyReport
+  have : canAccept c r = true := by rw [canAccept_iff, hv]; exact Nat.le_refl _
+  rw [this]
+  simp only [if_true, hk]
+  rw [applyParts_of_settled w h, hv]
+
+/-- `Settled` holds after the report was applied (concrete instance; the real consumer is checked on every
+    duplicated delivery by the harness) -/
+example : (applyReport (run loaded ([descr6].map .report)).core descr6).1 = (run loaded ([descr6].map .report)).core := by
+  decide
+
+/-! ### the lookups stay consistent -/
+
+/-- unique keys (descriptor handle, state descriptor handle, context state handle) are preserved by every event -/
+theorem tables_consistent (s : St) (evs : List Event) (w : s.core.tabs.Wf) : (run s evs).core.tabs.Wf :=
+  run_wf evs w
+
+theorem tables_consistent_from_start (evs : List Event) : (run St.init evs).core.tabs.Wf :=
+  run_wf evs ⟨List.nodup_nil, List.nodup_nil, List.nodup_nil⟩
+
+/-! ### only published states -/
+
+/-- every single state the consumer holds after any history of events is, field by field, one of the states that
+    a delivered report or a loaded GetMdib answer contained -/
+theorem published_only (evs : List Event) (x : SState) (h : x ∈ (run St.init evs).core.tabs.states) :
+    ∃ e ∈ evs, x ∈ eventStates e := by
+  have := run_statesFrom (P := fun x => ∃ e ∈ evs, x ∈ eventStates e) evs (s := St.init)
+    (And.intro (fun x hx => nomatch hx) (fun r hr => nomatch hr)) (fun e he x hx => ⟨e, he, hx⟩)
+  exact this.1 x h
+
+/-- the same for context states (GetContextStates answer included) -/
+theorem published_only_context (evs : List Event) (x : CState) (h : x ∈ (run St.init evs).core.tabs.cstates) :
+    ∃ e ∈ evs, x ∈ eventCStates e := by
+  have := run_cstatesFrom (P := fun x => ∃ e ∈ evs, x ∈ eventCStates e) evs (s := St.init)
+    (And.intro (fun x hx => nomatch hx) (fun r hr => nomatch hr)) (fun e he x hx => ⟨e, he, hx⟩)
+  exact this.1 x h
+
+example : (⟨2, 1, 7, .metric, 25⟩ : SState) ∈ (run loaded ([metric5, descr6].map .report)).core.tabs.states := by decide
+
+/-! ### SequenceId / InstanceId change -/
+
+/-- a report with another SequenceId or InstanceId invalidates the consumer, raises the event and changes nothing;
+    from then on every report is ignored until the application reloads -/
+theorem seq_change_stops (s : St) (r : Report) (rs : List Report) (hm : s.mode = .initialized)
+    (hd : idsDiffer s.core r = true) :
+    step s (.report r) = ({ s with mode := .invalid }, [{ kind := r.kind, idChanged := true }]) ∧
+    run (step s (.report r)).1 (rs.map .report) = { s with mode := .invalid } := by
+  refine ⟨step_report_changed r hm hd, ?_⟩
+  rw [step_report_changed r hm hd]
+  exact run_reports_invalid rfl
+
+example : (run loaded ([otherSeq, metric5, descr6].map .report)) = { loaded with mode := .invalid } := by decide
+
+/-- in state `invalid` (also: before the first load) nothing is ever applied -/
+theorem invalid_ignores (s : St) (rs : List Report) (hm : s.mode = .invalid) : run s (rs.map .report) = s :=
+  run_reports_invalid hm
+
+/-! ### reload and buffering -/
+
+/-- while GetMdib is in flight every arriving report is appended to the buffer, exactly once, and nothing else changes -/
+theorem buffering_exact (s : St) (rs : List Report) (hm : s.mode = .initializing) :
+    run s (rs.map .report) = { s with buf := s.buf ++ rs } :=
+  run_reports_initializing hm
+
+/-- when the answers arrive, the consumer holds the answer plus exactly the buffered reports that have its
+    SequenceId and are newer than it, each applied once, in arrival order; the buffer is empty, the state `initialized` -/
+theorem reload_restores (s : St) (snap : Snapshot) (ctx2 : List CState) (hm : s.mode = .initializing)
+    (hw : snap.wf ctx2 = true) :
+    (step s (.reloadEnd snap ctx2)).1 =
+      ⟨.initialized, (applyAll (loadSnapshot snap ctx2) (s.buf.filter (replayable snap.vg.ver snap.vg.seq))).1, []⟩ := by
+  rw [step_reloadEnd snap ctx2 hm hw, replay_eq_applyAll]
+  rfl
+
+/-- complete reload: begin, `rs` arrive while GetMdib is in flight, answers arrive -/
+theorem reload_sequence (s : St) (rs : List Report) (snap : Snapshot) (ctx2 : List CState) (hb : s.buf = [])
+    (hw : snap.wf ctx2 = true) :
+    run s (.reloadBegin :: rs.map .report ++ [.reloadEnd snap ctx2]) =
+      ⟨.initialized, (applyAll (loadSnapshot snap ctx2) (rs.filter (replayable snap.vg.ver snap.vg.seq))).1, []⟩ := by
+  rw [List.cons_append, run_cons, run_append]
+  have h1 : (step s .reloadBegin).1 = ⟨.initializing, ⟨⟨0, 0, none⟩, {}⟩, s.buf⟩ := rfl
+  rw [h1, run_reports_initializing rfl, run_cons, run_nil, reload_restores _ _ _ rfl hw, hb]
+  rfl
+
+example : (run loaded (.reloadBegin :: [metric4, otherSeq, metric5, metric5].map .report ++ [.reloadEnd snap0 []])).core.vg.ver = 5 ∧
+    (run loaded (.reloadBegin :: [metric4, otherSeq, metric5, metric5].map .report ++ [.reloadEnd snap0 []])).buf = [] := by
+  decide
+
 end Sdc.C06
